@@ -281,15 +281,54 @@ fn probe_limit() -> usize {
     last_ok
 }
 
-/// if the document is (ws) one number literal (ws), compare with f64::from_str (trusted conversion)
+/// maximal runs of number characters outside string literals that start like a number, in document order
+fn numeric_runs(s: &str) -> Vec<String> {
+    let mut out = vec![];
+    let mut run = String::new();
+    let mut in_str = false;
+    let mut esc = false;
+    for c in s.chars() {
+        if in_str {
+            if esc { esc = false; } else if c == '\\' { esc = true; } else if c == '"' { in_str = false; }
+            continue;
+        }
+        if c.is_ascii_digit() || "+-.eE".contains(c) {
+            run.push(c);
+        } else {
+            if run.starts_with(|x: char| x == '-' || x.is_ascii_digit()) { out.push(run.clone()); }
+            run.clear();
+            if c == '"' { in_str = true; }
+        }
+    }
+    if run.starts_with(|x: char| x == '-' || x.is_ascii_digit()) { out.push(run); }
+    out
+}
+
+fn numbers_preorder(v: &Value, out: &mut Vec<f64>) {
+    match v {
+        Value::Number(n) => out.push(*n),
+        Value::Array(a) => a.iter().for_each(|x| numbers_preorder(x, out)),
+        Value::Object(o) => o.iter().for_each(|(_, x)| numbers_preorder(x, out)),
+        _ => {}
+    }
+}
+
+/// Decimal -> f64 is Rust's (trusted): every number of an accepted document must be f64::from_str of the
+/// corresponding number-like run of the text.  "na" when the runs cannot be paired with the numbers.
 fn number_crosscheck(s: &str, got: &Result<Value, String>) -> &'static str {
-    let t = s.trim_matches(|c| c == ' ' || c == '\t' || c == '\n' || c == '\r');
-    if let Ok(Value::Number(n)) = got {
-        if !t.is_empty() && t.bytes().all(|b| b.is_ascii_digit() || b"+-.eE".contains(&b)) {
-            if let Ok(x) = f64::from_str(t) {
-                return if x == *n || (x.is_nan() && n.is_nan()) { "ok" } else { "bad" };
+    if let Ok(v) = got {
+        let mut nums = vec![];
+        numbers_preorder(v, &mut nums);
+        let runs = numeric_runs(s);
+        if nums.is_empty() || nums.len() != runs.len() { return "na"; }
+        for (n, r) in nums.iter().zip(runs.iter()) {
+            match f64::from_str(r) {
+                Ok(x) if x == *n => {}
+                Ok(_) => return "bad",
+                Err(_) => return "na",
             }
         }
+        return "ok";
     }
     "na"
 }
@@ -555,6 +594,55 @@ fn do_docs(n: usize, limit: usize, maxlen: usize) {
         log_doc(&t, limit, &extra, &mut count);
     }
     mark("nesting", count, &mut fam);
+    // 5b. number literals beyond what TLC compares exactly (> 15 digits, extremes): value checked with from_str (nx)
+    let mut lits: Vec<String> = vec![
+        "9007199254740993".into(), "9007199254740992.5".into(), "18446744073709551616".into(), "9223372036854775808".into(), "-9223372036854775809".into(),
+        "1.00000000000000011102230246251565404236316680908203125".into(), "1.00000000000000011102230246251565404236316680908203126".into(),
+        "1.00000000000000011102230246251565404236316680908203124".into(), "1e23".into(), "8.41e21".into(), "2.2250738585072011e-308".into(),
+        "2.2250738585072014e-308".into(), "4.9406564584124654e-324".into(), "2.4703282292062328e-324".into(), "1e-323".into(), "1e-324".into(), "1e-325".into(),
+        "1.7976931348623157e308".into(), "1.7976931348623158e308".into(), "1.797693134862315807e308".into(), "1E+308".into(), "1e0000000000000000005".into(),
+        "1e-0000000000000000005".into(), "0e999999999999".into(), "0.0e-999999999999".into(), "1e2147483648".into(), "1e-2147483649".into(), "1e18446744073709551616".into(),
+        format!("0.{}1", "0".repeat(400)), format!("1{}", "0".repeat(308)), format!("1{}", "0".repeat(309)), format!("1{}.5e-300", "0".repeat(300)),
+        format!("0.{}", "3".repeat(40)), format!("{}.{}e-40", "7".repeat(40), "1".repeat(30)), format!("-{}", "9".repeat(400)),
+    ];
+    for _ in 0..(if n >= 1000 { 400 } else { 120 }) {
+        let mut l = String::new();
+        if rng.chance(1, 3) { l.push('-'); }
+        let nd = *rng.pick(&[16usize, 17, 17, 18, 19, 20, 21, 25, 40]);
+        let point = rng.below(nd);
+        for i in 0..nd {
+            let d = if i == 0 { rng.range(1, 9) } else { rng.below(10) };
+            l.push((b'0' + d as u8) as char);
+            if i == point && i + 1 < nd && rng.chance(2, 3) { l.push('.'); }
+        }
+        if rng.chance(2, 3) { l.push(*rng.pick(&['e', 'E'])); l.push_str(*rng.pick(&["", "+", "-"])); l.push_str(&format!("{}", rng.below(330))); }
+        lits.push(l);
+    }
+    for l in &lits {
+        log_doc(l, limit, &[], &mut count);
+        log_doc(&format!("[{}]", l), limit, &[], &mut count);
+        log_doc(&format!("{{\"a\" : {} , \"b\":[1,{}]}}", l, l), limit, &[], &mut count);
+    }
+    mark("long and extreme number literals", count, &mut fam);
+    // 5c. every BMP code point through \uXXXX (16 per string; surrogates are in family 2), and raw code points
+    let stride = if n >= 1000 { 1 } else { 4 };
+    for base in (0u32..0x10000).step_by(16 * stride) {
+        if (0xd800..0xe000).contains(&base) { continue; }
+        let mut d = String::from("\"");
+        for u in base..base + 16 { d.push_str("\\u"); d.push_str(&hex4(&mut rng, u)); }
+        d.push('"');
+        log_doc(&d, limit, &[], &mut count);
+    }
+    for _ in 0..(if n >= 1000 { 600 } else { 120 }) {
+        let mut d = String::from("\"");
+        for _ in 0..16 {
+            let c = loop { let c = rand_char(&mut rng); if c as u32 >= 0x20 && c != '"' && c != '\\' { break c; } };
+            d.push(c);
+        }
+        d.push('"');
+        log_doc(&d, limit, &[], &mut count);
+    }
+    mark("all BMP escapes, raw code points", count, &mut fam);
     // 6. random grammar documents and all their single-edit mutants
     let mut valid_docs = 0u64;
     for i in 0..n {
@@ -646,9 +734,18 @@ fn do_ser(n: usize, per: usize, every: usize) {
     let mut reparse_bad = 0u64;
     let mut bits_inexact = 0u64;
     let mut variants = [0u64; 6];
-    for vi in 0..n {
+    // systematic strings first: 16 consecutive code points per string (also as a key), always logged
+    let mut fixed: Vec<Value> = vec![];
+    let bases: Vec<u32> = (0u32..0x300).step_by(16).chain([0x7f0, 0x2020, 0xd7f0, 0xe000, 0xfdd0, 0xfff0, 0x10000, 0x1f600, 0xe0000, 0x10fff0]).collect();
+    for b in bases {
+        let st: String = (b..b + 16).filter_map(char::from_u32).collect();
+        fixed.push(Value::String(st.clone()));
+        fixed.push(Value::Object(vec![(st.clone(), Value::Array(vec![Value::String(st), Value::Number(-0.0)]))]));
+    }
+    let nfixed = fixed.len();
+    for vi in 0..n + nfixed {
         let dep = rng.range(0, 4);
-        let v = rand_value(&mut rng, dep);
+        let v = if vi < nfixed { fixed[vi].clone() } else { rand_value(&mut rng, dep) };
         variants[match &v { Value::Null => 0, Value::Bool(_) => 1, Value::Number(_) => 2, Value::String(_) => 3, Value::Array(_) => 4, Value::Object(_) => 5 }] += 1;
         let t = tree(&v);
         // which of the ten outputs are sent to TLC: always the compact one, plus `per - 1` random indents
@@ -668,13 +765,13 @@ fn do_ser(n: usize, per: usize, every: usize) {
                 Err(_) => ("<panic>".to_string(), false),
             };
             if !re { reparse_bad += 1; }
-            if (vi % every == 0 && chosen.contains(&ind)) || !re {
+            if ((vi < nfixed || vi % every == 0) && chosen.contains(&ind)) || !re {
                 logged += 1;
                 out_line(&json!({"k": "ser", "v": t, "ind": ind, "out": cps(&text), "re": re}));
             }
         }
     }
-    eprintln!("{}", json!({"summary": true, "values": n, "outputs": outputs, "logged": logged, "reparse_not_equal": reparse_bad,
+    eprintln!("{}", json!({"summary": true, "values": n + nfixed, "outputs": outputs, "logged": logged, "reparse_not_equal": reparse_bad,
         "equal_but_not_bit_identical": bits_inexact, "variants": {"null": variants[0], "bool": variants[1], "number": variants[2], "string": variants[3], "array": variants[4], "object": variants[5]}}));
 }
 
